@@ -269,9 +269,14 @@ func c12CLI(r *core.Run, tier string) {
 				defer func() { <-sem }()
 				src := csrc
 				if v.comment {
-					src = strings.TrimSuffix(src, "\n") + " ; last comment\n"
+					// comment text: ASCII, Shift_JIS (ending in a 0x5C trail byte) or UTF-8, by program index
+					txt := []string{"last comment", "\x93\xfa\x96\x7b\x8c\xea\x83\x5c", "日本語ソ"}[pi%3]
+					src = strings.TrimSuffix(src, "\n") + " ; " + txt + "\n"
+					if v.leader {
+						src = "; " + txt + "\n" + strings.TrimPrefix(src, "")
+					}
 				}
-				if v.leader {
+				if v.leader && !v.comment {
 					src = "; leading comment\n" + src
 				}
 				if v.nofinal {
